@@ -19,7 +19,7 @@ Report == LET r == Recs[i]
                     \/ \E x \in Slots : a[x] # -1 /\ a[x] # x[2] /\ a[x] \in 1..S
               \* known finding (known_findings.json): when every node's seg id equals its node id the importer
               \* returns the source array untouched, so unlisted labels are not cleared
-              shortcut == /\ r.via \in {"df", "dfpos"} /\ r.exc = ""
+              shortcut == /\ r.via \in {"df", "dfpos", "builder"} /\ r.exc = ""
                           /\ \A x \in Slots : a[x] # -1 => a[x] = x[2]
                           /\ o = sg /\ Rng(r.gnodes) = NodeIds(a)
           IN /\ Bump(1) /\ (nt => Bump(2))
